@@ -1271,9 +1271,13 @@ class Obj(Opcode):
         kls = args.pop(0)
         # TODO Verify paths for correctness
         if args or hasattr(kls, "__getinitargs__") or not isinstance(kls, type):
-            interpreter.stack.append(ast.Call(kls, args, []))
+            call = ast.Call(kls, args, [])
         else:
-            interpreter.stack.append(ast.Call(kls, kls, []))
+            call = ast.Call(kls, kls, [])
+        # Like REDUCE, instantiating an object runs arbitrary code; bind the call to a variable so
+        # that it is part of the final AST even if its value is later popped or never used
+        var_name = interpreter.new_variable(call)
+        interpreter.stack.append(ast.Name(var_name, ast.Load()))
 
 
 class ShortBinUnicode(DynamicLength, ConstantOpcode):
@@ -1341,9 +1345,12 @@ class NewObj(Opcode):
         args = interpreter.stack.pop()
         class_type = interpreter.stack.pop()
         if isinstance(args, ast.Tuple):
-            interpreter.stack.append(ast.Call(class_type, list(args.elts), []))
+            call = ast.Call(class_type, list(args.elts), [])
         else:
-            interpreter.stack.append(ast.Call(class_type, [ast.Starred(args)], []))
+            call = ast.Call(class_type, [ast.Starred(args)], [])
+        # See the comment in Reduce.run(): do not leave the call as a bare stack value
+        var_name = interpreter.new_variable(call)
+        interpreter.stack.append(ast.Name(var_name, ast.Load()))
 
 
 class NewObjEx(Opcode):
@@ -1354,9 +1361,12 @@ class NewObjEx(Opcode):
         args = interpreter.stack.pop()
         class_type = interpreter.stack.pop()
         if isinstance(args, ast.Tuple):
-            interpreter.stack.append(ast.Call(class_type, list(args.elts), kwargs))
+            call = ast.Call(class_type, list(args.elts), kwargs)
         else:
-            interpreter.stack.append(ast.Call(class_type, [ast.Starred(args)], kwargs))
+            call = ast.Call(class_type, [ast.Starred(args)], kwargs)
+        # See the comment in Reduce.run(): do not leave the call as a bare stack value
+        var_name = interpreter.new_variable(call)
+        interpreter.stack.append(ast.Name(var_name, ast.Load()))
 
 
 class BinPersId(Opcode):
@@ -1364,13 +1374,14 @@ class BinPersId(Opcode):
 
     def run(self, interpreter: Interpreter):
         pid = interpreter.stack.pop()
-        interpreter.stack.append(
-            ast.Call(
-                ast.Attribute(ast.Name("UNPICKLER", ast.Load()), "persistent_load"),
-                [pid],
-                [],
-            )
+        call = ast.Call(
+            ast.Attribute(ast.Name("UNPICKLER", ast.Load()), "persistent_load"),
+            [pid],
+            [],
         )
+        # See the comment in Reduce.run(): do not leave the call as a bare stack value
+        var_name = interpreter.new_variable(call)
+        interpreter.stack.append(ast.Name(var_name, ast.Load()))
 
 
 class PersId(Opcode):
